@@ -5,6 +5,7 @@ From Coq Require Import ZArith List Bool Lia ZifyBool Permutation.
 From NS Require Import Base.Sx Base.NoteSeq Model.Wf Proofs.WfBase
      Model.TimeOps Proofs.TimeOps Proofs.TimeOpsTidy Proofs.TimeOpsConcat Proofs.TimeOpsAdjust.
 From NS Require Model.WfOps.
+From NS Require Gen.G02 Model.Extract Proofs.TimeOpsExtract Proofs.WfExtract.   (* used qualified *)
 Import ListNotations.
 Local Open Scope Z_scope.
 Ltac Zify.zify_post_hook ::= Z.to_euclidean_division_equations.
@@ -268,24 +269,17 @@ Proof.
   - apply Forall_forall. intros e He. apply filter_In in He. lia.
 Qed.
 
-Lemma wf_window : forall d c r,
-  Forall (fun n => n_start n <= n_end n) (s_notes c) -> Forall (fun t => 0 <= sa_time t) (s_sects c) ->
-  window d c = Ok r -> wf r.
+Lemma wf_clear_sub : forall p, wf p -> wf (clear_sub p).
+Proof. intros p (W0 & Wn & W1 & W2 & W3 & W4 & W5 & W6 & W7). apply wf_intro; cbn; auto. Qed.
+
+(** The window cut is C02's extract_subsequence(c, 0, d) ([C13_window_is_extract], pedal
+    control changes included), so its result is well-formed by the C02 corollary. *)
+Lemma wf_window : forall d c r, wf c -> window d c = Ok r -> wf r.
 Proof.
-  intros d c r Wn Ws H. unfold window in H.
-  destruct (is_quantized c); [discriminate|]. destruct (d <? 0); [discriminate|].
-  destruct (s_total c <=? 0); [discriminate|]. injection H as <-.
-  destruct (max_end_ge (window_notes d (s_notes c)) 0) as [M0 MB].
-  apply wf_intro; cbn [s_total s_notes s_tempos s_tsigs s_ksigs s_texts s_ccs s_bends s_sects]; auto.
-  - apply Forall_forall. intros n' Hn'. rewrite Forall_forall in MB. pose proof (MB n' Hn') as Hend.
-    apply window_notes_In in Hn'. destruct Hn' as (n & Hn & Hr & ->).
-    rewrite Forall_forall in Wn. specialize (Wn n Hn).
-    unfold note_wf, max_end in *. destruct n; unfold note_with_times in *; cbn in *. lia.
-  - apply window_state_nonneg. reflexivity.
-  - apply window_state_nonneg. reflexivity.
-  - apply window_state_nonneg. reflexivity.
-  - apply Forall_app. split; [apply window_state_nonneg; reflexivity|].
-    apply Forall_forall. intros e He. apply filter_In in He. lia.
+  intros d c r W H. rewrite TimeOpsExtract.window_is_extract in H.
+  destruct (Extract.extract_subsequence G02.DEFAULT_PRESERVE c 0 d) as [p|e] eqn:E;
+    cbn [TimeOpsExtract.of_xres] in H; [|discriminate].
+  injection H as <-. apply wf_clear_sub. eapply WfExtract.wf_extract_subsequence; eauto.
 Qed.
 
 Lemma wf_repeat : forall s d osd r,
@@ -298,8 +292,7 @@ Proof.
   { rewrite repeat_pairs_eq in E. destruct (eff_dur s osd =? 0); [discriminate|]. injection E as <-.
     apply Forall_forall. intros p Hp. apply List.repeat_spec in Hp. subst p. cbn. auto. }
   pose proof (wf_concat_pairs ps c F C) as Wc.
-  apply (wf_window d c r); [| apply Wc | exact H].
-  eapply Forall_impl; [|apply (wf_notes _ Wc)]. intros n (A & B & _). exact B.
+  exact (wf_window d c r Wc H).
 Qed.
 
 Lemma inv_repeat : forall s d osd r,
